@@ -224,8 +224,18 @@ def track_case(draw):
                 _, p, q = draw(pair())
                 wps += [p, q]
             wps = wps[:n]
+    full = None
+    if multi and draw(st.integers(0, 5)) == 0:
+        # a position fix repeated in the input (same point twice in a row): it adds no length and must not disturb
+        # lookups on the legs after it
+        # (an interior fix only: the direction at a repeated first or last fix is not defined by the property)
+        k = draw(st.integers(1, len(wps) - 2))
+        full = wps[: k + 1] + [list(wps[k])] + wps[k + 1:]
     qs = draw(st.lists(query(len(wps)), min_size=4, max_size=10))
-    return {'kind': 'track', 'cls': cls, 'wps': wps, 'overstep': draw(st.booleans()), 'q': qs}
+    out = {'kind': 'track', 'cls': cls, 'wps': wps, 'overstep': draw(st.booleans()), 'q': qs}
+    if full is not None:
+        out['wps_with_repeat'] = full
+    return out
 
 
 _SHIPPED = None
@@ -332,6 +342,14 @@ class TrackCheck:
 
         overstep = self.case['overstep']
         locs = [Location(longitude=p[0], latitude=p[1]) for p in wps]
+        wmap = list(range(len(wps)))
+        if self.multi and self.case.get('wps_with_repeat'):
+            # the oracle works on the distinct fixes; the code under test gets the list with the repeated fix
+            ctx.label('multi_waypoint_with_repeated_fix')
+            full = self.case['wps_with_repeat']
+            locs = [Location(longitude=p[0], latitude=p[1]) for p in full]
+            kdup = next(i for i in range(len(full) - 1) if full[i] == full[i + 1])
+            wmap = [j if j <= kdup else j + 1 for j in range(len(wps))]
         if self.multi:
             st_, track = self.call(lambda: GroundTrack(locs, allow_overstep=overstep))
         else:
@@ -352,7 +370,7 @@ class TrackCheck:
             return
         wd = []
         for k in range(len(wps)):
-            st_, w = self.call(track.waypoint_distance, k)
+            st_, w = self.call(track.waypoint_distance, wmap[k])
             if st_ != 'ok':
                 _fail_exc(ctx, 'index', w, self.shape)
                 return
